@@ -22,8 +22,17 @@ What is assumed about a history (`HistOkFrom`): a module file installed by *some
 does not collide in (mtime second, size) with the bytecode-cache entry of the module path - CPython
 validates cached bytecode by exactly that key, and no code in mako can repair a collision it did not
 cause.  Mako's own writes cannot collide any more: the entry is removed after every (re)write.
-OPEN: nothing - no recorded finding of C15 is left (`known_findings.json` lists the two repaired ones under
-"fixed"); undoing a repair breaks `writeLoops_on` / `dropsBytecode_on` / `dropsBytecodeHook_on`.
+OPEN (finding F-C15-3, see `rewrite_iff_due_partial` / `respelled_name_rewrite_counterexample`): the re-check
+"generated from another template file" compares file-name *strings*; with "another file" read as file
+identity the statement
+
+```
+theorem rewrite_iff_due … :   writes ≥ 1 ↔ missing ∨ older ∨ other magic number ∨ generated from another FILE
+```
+is false of the code: the same file under another spelling of its name (`./tmpl//x.html` for `tmpl/x.html`,
+same module path) is regenerated although nothing is due.  The two defects of the first round are repaired
+(`known_findings.json`, "fixed"); undoing a repair breaks `writeLoops_on` / `dropsBytecode_on` /
+`dropsBytecodeHook_on`.
 `concurrent_constructs_need_stable_source_counterexample` documents a limit of the protocol that lies outside the
 property's quantifier (see there); it is not a finding.
 -/
@@ -39,11 +48,20 @@ construction of that second - "reused unchanged" fails; the harness stamps sourc
 see exactly that.) -/
 theorem mtimes_whole_seconds : mtimesWholeSeconds = true := by decide
 
+/-- Regenerated fact: `_CompileContext` stores the template file name unchanged, so the name a module records
+(`_template_filename`) is the very string the Template was given - which is what the re-check compares it
+with.  (Code that records a rewritten name - absolute, normalised - makes every Template given a relative or
+un-normalised name regenerate on each construction, twice when the module is missing: `recordedName`.) -/
+theorem records_filename_verbatim : recordsFilenameVerbatim = true := by decide
+
 /-- For every history and the world it reaches: a construct without faults writes the module iff it is
-missing, older than the source, carries another magic number **or was generated from another template
-file**; it writes at most once; when nothing is due the whole module directory is untouched and no
-file-system action is performed. -/
-theorem rewrite_iff_due (w0 : World) (h : List HOp) (p : Plan) (hw0 : Inv w0) (hh : HistOkFrom w0 h)
+missing, older than the source, carries another magic number **or records another template file name**; it
+writes at most once; when nothing is due the whole module directory is untouched and no file-system action
+is performed.
+Partial (F-C15-3): "another template file" is what the code tests - inequality of the recorded name and the
+name now given, as *strings*; histories may respell the name (`HOp.respell`), and then this is weaker than
+the property's "generated from another file" - see the counterexample below. -/
+theorem rewrite_iff_due_partial (w0 : World) (h : List HOp) (p : Plan) (hw0 : Inv w0) (hh : HistOkFrom w0 h)
     (hp : p.noFault) :
     ((construct defaultWriter (runH w0 h) p).writes ≥ 1 ↔
       ((runH w0 h).fs .mod = none ∨ ∃ f, (runH w0 h).fs .mod = some f ∧
@@ -56,7 +74,7 @@ theorem rewrite_iff_due (w0 : World) (h : List HOp) (p : Plan) (hw0 : Inv w0) (h
 /-- the hypotheses are satisfiable by a non-trivial history (written, source touched older / equal / newer,
 replaced by another generator version, deleted, a raising and a dying construct), and both sides occur -/
 example : (construct defaultWriter (runH World.init exHist) {}).writes = 1 ∧ Due (runH World.init exHist) :=
-  have h := rewrite_iff_due World.init exHist {} init_inv_world exHist_okFrom ⟨rfl, rfl, rfl⟩
+  have h := rewrite_iff_due_partial World.init exHist {} init_inv_world exHist_okFrom ⟨rfl, rfl, rfl⟩
   ⟨by decide, h.1.1 (by decide)⟩
 example : (construct defaultWriter (runH World.init (exHist ++ [.setClock 13, .construct {}])) {}).writes = 0 := by
   decide
@@ -64,6 +82,16 @@ example : (construct defaultWriter (runH World.init (exHist ++ [.setClock 13, .c
 example : (construct defaultWriter (runH World.init
     (exHist ++ [.setClock 13, .construct {}, .replaceMod ⟨4, magicNumber, true, 50, 1, 7⟩ 20])) {}).writes = 1 := by
   decide
+
+/-- **F-C15-3**: the module was written for this source version under the name `0`; the next Template is given
+another spelling (`1`) of the same file's name (same module path).  The module on disk is complete, not older
+than the source, of the current generator version and generated from the *current* source - nothing is due -
+and it is rewritten all the same. -/
+theorem respelled_name_rewrite_counterexample :
+    let w := runH World.init [.modifySrc 5, .setClock 7, .construct {}, .respell 1]
+    (construct defaultWriter w {}).writes = 1 ∧
+    (w.fs .mod).map (fun f => (f.content.src, f.content.magic, f.content.complete, decide (f.mtime < w.srcMtime)))
+      = some (w.srcVer, magicNumber, true, false) := by decide
 
 /-! ## the `module_writer` hook -/
 
